@@ -194,7 +194,7 @@ func runC15(c *run.Ctx) {
 			// be converted (that is how a type is derived from a zero / nil sample);
 			// nil slices / maps nested inside other data read as empty containers
 			staticOK := map[string]bool{"nil slice": true, "nil map": true, "nil pointer": true, "nil element pointer": true,
-				"struct slice with nil and non-nil untagged pointer": true}
+				"struct slice with nil and non-nil untagged pointer": true, "typed map of structs with nil and non-nil untagged pointer": true}
 			nestedOK := map[string]bool{"nil slice": true, "nil map": true}
 			for _, api := range []string{"ValOf", "TypeOf", "ValEnvOf(map)", "TypeEnvOf(map)"} {
 				var err error
